@@ -845,6 +845,9 @@ class ExprMixin:
         return r
 
     def ev_Attribute(self, node, st, want):
+        if isinstance(node.value, ast.Name) and node.value.id in ("set", "list", "dict") and node.value.id not in st.env and node.attr in MUTATORS:
+            # unbound method of a builtin container used as a value (`_add = set.add`): called later as _add(obj, x)
+            return FuncVal(f"{node.value.id}.{node.attr}", "unbound", node.attr)
         base = self.ev(node.value, st)
         if isinstance(base, SV) and isinstance(base.ty, (T.Seq, T.Set, T.Map)) and node.attr in MUTATORS | {"get", "keys", "items", "values", "copy"}:
             # bound method used as a value (`wpop = work.pop`): re-dispatched as a method call at the call site
